@@ -571,7 +571,7 @@ class DataFrameInternal:
             RowStatHelper(exprs, percentiles_relative_error),
             lambda counter, row: counter.merge(row, self.bound_schema),
             lambda counter1, counter2: counter1.mergeStats(counter2)
-        )
+        ).with_columns_of(self.bound_schema)
 
     def aggregate(self, zeroValue, seqOp, combOp):
         return self._rdd.aggregate(zeroValue, seqOp, combOp)
